@@ -370,6 +370,22 @@ Ltac dmatch :=
          | |- context [match ?x with _ => _ end] => destruct x eqn:?
          end.
 
+(* force_close only produces OForce / ORetF outputs *)
+Lemma force_outs_kind s p fs fp o :
+  In o (force_outs s p fs fp) -> (exists c, o = OForce c) \/ (exists r, o = ORetF r).
+Proof.
+  unfold force_outs, force_one. intros H.
+  destruct (find_ctx p (s_ctxs s)) as [cx|]; [|destruct H as [<-|[]]; right; eexists; reflexivity].
+  apply in_app_or in H. destruct H as [H|H].
+  - destruct (c_sec cx) as [h|]; [|destruct H].
+    destruct (h_act h || (0 <? strong s (h_id h))); [destruct fs|]; cbn [fst In] in H;
+      try destruct H as [<-|[]]; try destruct H; left; eexists; reflexivity.
+  - apply in_app_or in H. destruct H as [H|H].
+    + destruct (h_act (c_prim cx) || (0 <? strong s (h_id (c_prim cx)))); [destruct fp|]; cbn [fst In] in H;
+        try destruct H as [<-|[]]; try destruct H; left; eexists; reflexivity.
+    + destruct H as [<-|[]]. right; eexists; reflexivity.
+Qed.
+
 Lemma handle_consts s e :
   let s1 := fst (handle_ev s e) in
   s_now s1 = s_now s /\ s_T s1 = s_T s /\ s_ka s1 = s_ka s /\ s_act s1 = s_act s.
@@ -423,6 +439,7 @@ Proof.
     + st_simpl. unfold activity. st_simpl.
       destruct (kfind (p, h_id (c_prim cx)) (s_last s)); st_simpl; auto.
     + st_simpl. auto.
+  - (* EForce *) cbn [fst]. auto.
 Qed.
 
 (* ------------------------------------------------------------------ C09: tracker invariant *)
@@ -505,8 +522,9 @@ Qed.
 
 Lemma handle_no_down s e p c : ~ In (ODown p c) (snd (handle_ev s e)).
 Proof.
-  destruct e; cbn [handle_ev]; unfold on_established, on_closed, on_open, on_open_full;
-    dmatch; cbn [snd In]; intuition discriminate.
+  destruct e; try (cbn [handle_ev]; unfold on_established, on_closed, on_open, on_open_full;
+    dmatch; cbn [snd In]; intuition discriminate).
+  cbn [handle_ev snd]. intros H. apply force_outs_kind in H. destruct H as [[x H]|[x H]]; discriminate.
 Qed.
 
 (* not-before: a downgrade happens only when the last keep-alive activity (ghost log) is at
@@ -641,6 +659,9 @@ Proof.
     cbn [fst snd draw_of]. exists 1. split; [apply N.le_refl|]. split.
     + st_simpl. destruct (s_ka s); st_simpl; rewrite ?activity_next; reflexivity.
     + left. reflexivity.
+  - (* EForce *)
+    cbn [fst snd]. apply Z; [reflexivity|]. apply flat_map_nil. intros x H.
+    apply force_outs_kind in H. destruct H as [[y ->]|[y ->]]; reflexivity.
 Qed.
 
 Lemma step_draw s dt e :
@@ -1060,6 +1081,9 @@ Proof.
     eapply conn_inv_same; [| intros x Hx; exact Hx | exact INV].
     intros q. unfold conn_ids. rewrite find_set_ctx. cbn [c_peer].
     destruct (p =? q) eqn:E; [|reflexivity]. apply N.eqb_eq in E. subst q. rewrite F. reflexivity.
+  - (* EForce *)
+    cbn [fst snd]. split; [exact INV|]. intros q. unfold pevs. rewrite flat_map_nil; [reflexivity|].
+    intros x H. apply force_outs_kind in H. destruct H as [[y ->]|[y ->]]; reflexivity.
 Qed.
 
 Lemma ev_ok_now cap e s v i : ev_ok cap e (with_now s v) i = ev_ok cap e s i.
@@ -1146,6 +1170,7 @@ Proof.
   destruct (h_act (c_prim cx) || (0 <? strong s (h_id (c_prim cx)))); [|cbn [snd In]; intuition discriminate].
   cbn [snd In]. intros [H|[H|[]]]; [discriminate|]. inversion H; subst.
   exists p, cx. repeat split; auto.
+  cbn [snd]. intros H. apply force_outs_kind in H. destruct H as [[y H]|[y H]]; discriminate.
 Qed.
 
 Lemma primary_only e s dt i c id :
@@ -1180,7 +1205,7 @@ Lemma wf_alternates q os : forall b b',
 Proof.
   induction os as [|o os IH]; intros b b' H; [exact I|].
   unfold pevs, conn_evs in *. cbn [flat_map] in *. fold (pevs q os) in *. fold (conn_evs q os) in *.
-  destruct o as [p|p|p d|i [g|]|p|r i|c i|p c| |]; cbn [pev_of app] in *;
+  destruct o as [p|p|p d|i [g|]|p|r i|c i|p c| |c|r|]; cbn [pev_of app] in *;
     try (eapply IH; exact H).
   - destruct (p =? q); cbn [app wf_run alternates] in *; [|eapply IH; exact H].
     destruct b; [discriminate|]. split; [reflexivity | eapply IH; exact H].
